@@ -788,6 +788,11 @@ fn sc_many_farms_exact_thirds_long_farm(t: &mut Tracer) {
     w.claim(&b, None, &[]);
     w.claim(&c, Some(1), &[]);
     w.expand_farm(&e, "m-long", &lp2, coin(6, "uusd"), &[coin(6, "uusd")]);
+    // a farm emitting one unit per epoch, expanded by more epochs than a 64-bit counter holds: refused, not truncated
+    mk(&mut w, &e, "one", &lp2, 3, 1003, coin(1000, "uusdt"));
+    w.expand_farm(&e, "m-one", &lp2, coin(18_446_744_073_709_551_621, "uusdt"), &[coin(18_446_744_073_709_551_621, "uusdt")]);
+    w.expand_farm(&e, "m-one", &lp2, coin(18_446_744_073_709_551_616, "uusdt"), &[coin(18_446_744_073_709_551_616, "uusdt")]);
+    w.expand_farm(&e, "m-one", &lp2, coin(5, "uusdt"), &[coin(5, "uusdt")]);
     w.expand_farm(&c, "m-nine", &lp, coin(18, "uusd"), &[coin(18, "uusd")]);
     w.advance(DAY);
     w.claim(&c, None, &[]);
